@@ -11,7 +11,7 @@ RULE = ("each case runs one seeded script twice in fresh worlds: through the git
         "coincide (logical clock), so notes are compared per commit id (files, sessions, line sets, prompt ids) and blame per file; both runs "
         "are also checked against the ledger. non-trivial = at least one note with AI lines compared and a rewrite op ran; distinct = op sequences")
 
-OPS = ["commit", "commit", "partial", "amend", "rebase", "rebase-i", "cherry", "cherry-abandon", "cherry-stash", "reset", "stash", "squash", "switch", "pull"]
+OPS = ["commit", "commit", "partial", "amend", "rebase", "rebase-i", "cherry", "cherry-abandon", "cherry-stash", "reset", "reset-detached", "stash", "squash", "switch", "pull"]
 
 
 def script(sc):
@@ -59,6 +59,16 @@ def script(sc):
             if rng.random() < 0.5:
                 sc.do_edit()
             sc.op_reset(mode=rng.choice(["--soft", "--mixed"]))
+        elif op == "reset-detached":
+            # with a detached HEAD git reports a reset as an update of `HEAD` alone (no refs/heads/* line in the reference transaction)
+            sc.begin_undoable()
+            sc.do_edit(); sc.commit_all("to-undo")
+            br = sc.current_branch()
+            sc.g("checkout", "-q", "--detach")
+            sc.op_reset(mode=rng.choice(["--soft", "--mixed"]))
+            sc.commit_all("re-made on a detached HEAD")
+            if br:
+                sc.g("checkout", "-q", "-B", br)
         elif op == "stash":
             # finding D28: in hooks mode `stash apply` after HEAD moved loses the attribution (`pop` keeps it)
             sc.do_edit(); sc.op_stash(how=None if sc.profile.get("hooks_stash_apply", True) else "pop")
